@@ -122,7 +122,13 @@ def check_one(arg):
                     incs = [str(n) for n in fp.utils.walk(o.tree, fp.F3.Include_Stmt)]
                     wanted = ["INCLUDE '%s'" % names[f] for f in sorted(absent)]
                     if sorted(incs) != sorted(wanted):
-                        fails.append(("unresolved_include_lost:" + kind, "Include_Stmt nodes %r, expected %r" % (incs, wanted), rep))
+                        if fp.utils.walk(o.tree, fp.F3.Main_Program0):
+                            # the Main_Program0 fall-back drops what was matched before it (recorded under C02 as well)
+                            fails.append(("unresolved_include_before_implicit_main_lost", "Include_Stmt nodes %r, expected %r"
+                                          % (incs, wanted), rep))
+                        else:
+                            fails.append(("unresolved_include_lost:" + kind, "Include_Stmt nodes %r, expected %r" % (incs, wanted), rep))
+                        continue
                     if any(w not in str(o.tree) for w in wanted):
                         fails.append(("unresolved_include_not_reemitted:" + kind, "INCLUDE line missing from str(tree)", rep))
                 continue
